@@ -156,6 +156,7 @@ type App struct {
 	// exploration plumbing
 	X        *mc.Exec
 	S        *mc.Sched
+	MaxCalls int  // horizon: more seam calls than this in one App means "does not return" (0 = 20000)
 	Faults   bool // every fallible seam call is a fault choice point
 	Blocking bool // locks are blocking scheduler resources (else counting)
 	faultN   int
@@ -244,6 +245,9 @@ func (a *App) Finish(r *Req) {
 // ---------------------------------------------------------------------------------------
 // seam plumbing
 
+// HorizonExceeded is the panic raised when a request makes more seam calls than the horizon.
+type HorizonExceeded struct{ Calls int }
+
 // InjectedError marks errors made by the fault injector.
 type InjectedError struct{ N int; Op string }
 
@@ -261,6 +265,9 @@ func (a *App) point(ctx context.Context, op, arg string, fallible bool) (int, er
 	}
 	a.Log = append(a.Log, Call{Req: rid, Op: op, Arg: arg})
 	idx := len(a.Log) - 1
+	if max := a.MaxCalls; (max == 0 && idx > 20000) || (max > 0 && idx > max) {
+		panic(HorizonExceeded{Calls: idx})
+	}
 	a.gate(r, op)
 	if fallible && a.Faults && a.X != nil && (a.S == nil || !a.S.Aborting) {
 		if a.X.Choose(mc.KFault, 2, nil, 0, op) == 1 {
